@@ -59,9 +59,12 @@ METER = "ComponentCategory.METER"
 class Ctx:
     def __init__(self, prog: Program) -> None:
         self.prog = prog
-        self.folder = Folder(prog, keep=KEEP_CALLEES)
         fg = prog.cls(f"{GEN}._formula_generator:FormulaGenerator")
         cons = prog.cls(f"{GEN}._consumer_power_formula:ConsumerPowerFormula")
+        self.R: dict[str, str | None] = {}     # anchored (historical) name -> name of the function that plays the role
+        self.keep: set[str] = set()            # callees never expanded / spliced into their callers
+        self.resolve_roles(fg, cons)
+        self.folder = Folder(prog, keep=self.keep)
         dfs = prog.func(f"{CG}.dfs")
         self.dfs_params = dfs.params[1:]
         if len(self.dfs_params) != 3:
@@ -73,9 +76,9 @@ class Ctx:
         for cls, names in ((fg, ("_get_meter_fallback_components", "_is_primary_fallback_pair", "_get_metric_fallback_components")),
                            (cons, ("_are_grid_meters", "_gen_with_grid_meter", "_gen_without_grid_meter"))):
             for n in names:
-                if n not in cls.methods:
-                    raise AnalysisError(f"anchor {cls.qual}.{n} not found")
-                self.sigs[n] = cls.methods[n].params[1:]
+                actual = self.R.get(n)
+                if actual is not None:
+                    self.sigs[actual] = cls.methods[actual].params[1:]
         self._prep: dict[str, FuncInfo] = {}
         cg = prog.cls(CG)
         api = {n: cg.methods[n] for n in ("dfs", "successors", "predecessors", "components") if n in cg.methods}
@@ -84,10 +87,149 @@ class Ctx:
         self._defs: dict[int, Any] = {}
         self._nested: dict[int, dict[str, Any]] = {}
 
+    def resolve_roles(self, fg: Any, cons: Any) -> None:
+        """Bind the private anchors by the role they play; their historical name is only the first guess.
+        A role nobody plays is an AnalysisError (exit 2); an inlined *trivial* helper is a role played by its
+        caller (None here, handled by the rules)."""
+        prog = self.prog
+
+        def private(cls: Any) -> list[FuncInfo]:
+            return [m for m in cls.methods.values() if m.name.startswith("_") and not m.name.startswith("__")]
+
+        def pick(cls: Any, hint: str, pred: Callable[[FuncInfo], bool], optional: bool = False) -> FuncInfo | None:
+            if hint in cls.methods:
+                return cls.methods[hint]
+            cands = [m for m in private(cls) if pred(m)]
+            if len(cands) == 1:
+                return cands[0]
+            if optional and not cands:
+                return None
+            raise AnalysisError(f"{len(cands)} functions of {cls.qual} play the role of `{hint}`")
+
+        def self_calls(node: ast.AST) -> list[ast.Call]:
+            return [c for c in ast.walk(node) if isinstance(c, ast.Call) and isinstance(c.func, ast.Attribute)
+                    and isinstance(c.func.value, ast.Name) and c.func.value.id == "self"]
+
+        def mentions(m: FuncInfo, dotted_text: str) -> bool:
+            return any(isinstance(x, ast.Attribute) and txt(x) == dotted_text for x in ast.walk(m.node))
+
+        gc = pick(fg, "_get_grid_component", lambda m: len(m.params) == 1 and mentions(m, "ComponentCategory.GRID")
+                  and not any(c.func.attr.startswith("_") for c in self_calls(m.node)))
+        assert gc is not None
+        gs = pick(fg, "_get_grid_component_successors", lambda m: len(m.params) == 1 and any(
+            c.func.attr == gc.name for c in self_calls(m.node)) and any(
+            isinstance(c, ast.Call) and isinstance(c.func, ast.Attribute) and c.func.attr == "successors" for c in ast.walk(m.node)))
+        bld = pick(fg, "_get_builder", lambda m: any(isinstance(c, ast.Call) and txt(c.func).endswith("ResampledFormulaBuilder")
+                                                     for c in ast.walk(m.node)), optional=True)
+        assert gs is not None
+
+        def is_pairing(m: FuncInfo) -> bool:
+            if len(m.params) != 2:
+                return False
+            loops = [n for n in ast.walk(m.node) if isinstance(n, ast.For) and txt(n.iter) == m.params[1]]
+            rets = [n.value for n in walk_no_nested(m.node) if isinstance(n, ast.Return)]
+            d = single_defs(m.node)
+            return bool(loops) and bool(rets) and all(isinstance(r, ast.Name) and r.id in d and txt(d[r.id]) in ("{}", "dict()") for r in rets)
+
+        mfc = pick(fg, "_get_metric_fallback_components", is_pairing)
+        assert mfc is not None
+        # inside it: the callee whose result becomes the entry of the looped component, and the two-argument
+        # predicate asked about (some predecessor, the looped component) — here or in a helper / closure of it
+        loop = next((n for n in ast.walk(mfc.node) if isinstance(n, ast.For) and txt(n.iter) == mfc.params[1]
+                     and isinstance(n.target, ast.Name)), None)
+        x = loop.target.id if loop is not None else ""
+        mf_name = "_get_meter_fallback_components" if "_get_meter_fallback_components" in fg.methods else None
+        if mf_name is None and loop is not None:
+            cands = {s.value.func.attr for s in ast.walk(loop) if isinstance(s, ast.Assign) and isinstance(s.targets[0], ast.Subscript)
+                     and isinstance(s.value, ast.Call) and s.value in self_calls(s) and [txt(a) for a in s.value.args] == [x]}
+            mf_name = next(iter(cands)) if len(cands) == 1 else None
+        pf_name = "_is_primary_fallback_pair" if "_is_primary_fallback_pair" in fg.methods else None
+        if pf_name is None:
+            scopes: list[ast.AST] = [mfc.node] + [fg.methods[c.func.attr].node for c in self_calls(mfc.node)
+                                                  if c.func.attr in fg.methods and c.func.attr != mf_name and c.func.attr.startswith("_")]
+            cands = {c.func.attr for sc in scopes for c in self_calls(sc) if len(c.args) + len(c.keywords) == 2
+                     and c.func.attr in fg.methods and len(fg.methods[c.func.attr].params) == 3
+                     and c.func.attr not in {m.name for m in [mfc]} and fg.methods[c.func.attr].node not in scopes}
+            pf_name = next(iter(cands)) if len(cands) == 1 else None
+        if mf_name is None or pf_name is None:
+            raise AnalysisError(f"no function of {fg.qual} plays the role of `_get_meter_fallback_components` / `_is_primary_fallback_pair`")
+        # the consumer formula: which variant `generate` selects, by what test
+        cgen = cons.methods.get("generate")
+        if cgen is None:
+            raise AnalysisError(f"anchor {cons.qual}.generate not found")
+        rcalls = [c for n in ast.walk(cgen.node) if isinstance(n, (ast.Return, ast.IfExp, ast.Assign)) for c in self_calls(n)
+                  if c.func.attr in cons.methods and len(c.args) + len(c.keywords) == 2 and c.func.attr.startswith("_")]
+        gens = []
+        for c in rcalls:
+            if c.func.attr not in gens and c.func.attr != (bld.name if bld else None):
+                gens.append(c.func.attr)
+        tests = [c for n in ast.walk(cgen.node) if isinstance(n, (ast.If, ast.IfExp)) for c in self_calls(n.test)
+                 if c.func.attr in cons.methods and len(c.args) + len(c.keywords) == 1 and c.func.attr.startswith("_")]
+        agm_name = "_are_grid_meters" if "_are_grid_meters" in cons.methods else (tests[0].func.attr if len({t.func.attr for t in tests}) == 1 else None)
+        if len(gens) != 2:
+            raise AnalysisError(f"{cgen.qual} does not select between two generator variants")
+        # the variant that gets the grid successors is the one "with grid meters"
+        by_arg = {}
+        for c in rcalls:
+            args = call_args(c, cons.methods[c.func.attr].params[1:]) or {}
+            a2 = list(args.values())[1] if len(args) == 2 else None
+            direct = isinstance(a2, ast.Call) and a2 in self_calls(a2) and a2.func.attr == gc.name
+            by_arg[c.func.attr] = "_gen_without_grid_meter" if direct or (
+                isinstance(a2, ast.Name) and a2.id in single_defs(cgen.node) and txt(single_defs(cgen.node)[a2.id]) == f"self.{gc.name}()") \
+                else "_gen_with_grid_meter"
+        if sorted(by_arg.values()) != ["_gen_with_grid_meter", "_gen_without_grid_meter"]:
+            raise AnalysisError(f"{cgen.qual}: cannot tell the with- from the without-grid-meter variant")
+        gridcls = prog.cls(f"{GEN}._grid_power_formula_base:GridPowerFormulaBase")
+        ggen = gridcls.methods.get("_generate") or next((m for m in gridcls.methods.values() if any(
+            isinstance(c, ast.Call) and isinstance(c.func, ast.Attribute) and c.func.attr == "push_component_metric" for c in ast.walk(m.node))), None)
+        if ggen is None:
+            raise AnalysisError(f"no function of {gridcls.qual} emits the grid power sum")
+        self.R = {"_get_grid_component": gc.name, "_get_grid_component_successors": gs.name, "_get_builder": bld.name if bld else None,
+                  "_get_metric_fallback_components": mfc.name, "_get_meter_fallback_components": mf_name,
+                  "_is_primary_fallback_pair": pf_name, "_are_grid_meters": agm_name, "_generate": ggen.name}
+        self.R.update({role: actual for actual, role in by_arg.items()})
+        # helpers whose *result* a sum loop ranges over (fallback formulas, CHP meters, ...): bound by that use
+        feeders: set[str] = set()
+        for cls in prog.all_classes():
+            if not cls.module.name.startswith(GEN):
+                continue
+            for m in cls.methods.values():
+                if not any(isinstance(c, ast.Call) and isinstance(c.func, ast.Attribute) and c.func.attr == "push_component_metric"
+                           for c in ast.walk(m.node)):
+                    continue
+                d = single_defs(m.node)
+                for n in ast.walk(m.node):
+                    if isinstance(n, ast.For):
+                        for c in self_calls(deref(n.iter, d)):
+                            if c.func.attr.startswith("_"):
+                                feeders.add(c.func.attr)
+        self.feeders = feeders
+        self.keep = {v for v in self.R.values() if v} | feeders
+
+    def selection(self, cgen: FuncInfo) -> tuple[ast.AST, ast.AST, ast.AST] | None:
+        """ConsumerPowerFormula.generate as (test, value if the test holds, value otherwise); None if it is not a
+        two-way selection, or if a guard that refuses to generate is not `the grid has no successors`."""
+        gs = f"self.{self.R['_get_grid_component_successors']}()"
+        self.folder.mark_raise = True
+        try:
+            e = self.norm(self.folder.ret_expr(cgen), pmap(cgen))
+        finally:
+            self.folder.mark_raise = False
+        while isinstance(e, ast.IfExp) and "RAISE" in (txt(e.body), txt(e.orelse)):
+            if emptiness(bcanon(e.test, txt(e.orelse) == "RAISE")) != (gs, True):
+                return None
+            e = e.orelse if txt(e.body) == "RAISE" else e.body
+        if not isinstance(e, ast.IfExp):
+            return None
+        test, a, b = e.test, e.body, e.orelse
+        while isinstance(test, ast.UnaryOp) and isinstance(test.op, ast.Not):
+            test, a, b = test.operand, b, a
+        return test, a, b
+
     def prep(self, fn: FuncInfo) -> FuncInfo:
         """Statements that were extracted into simple private helpers are spliced back (analysis only)."""
         if fn.qual not in self._prep:
-            node = inline_helpers(self.prog, fn, exclude=KEEP_CALLEES)
+            node = inline_helpers(self.prog, fn, exclude=self.keep)
             self._prep[fn.qual] = FuncInfo(fn.name, fn.module, node, fn.cls, fn.outer)
         return self._prep[fn.qual]
 
@@ -190,12 +332,19 @@ def check_part(run: Run, cx: Ctx) -> None:
     cons = prog.cls(f"{GEN}._consumer_power_formula:ConsumerPowerFormula")
     # the three sibling predicates, bound by role: what `_are_grid_meters` returns, and the `condition`
     # argument of the graph search in each of the two generator variants
-    agm = cons.methods["_are_grid_meters"]
     forms: dict[str, tuple[FuncInfo, ast.AST, Any, ast.AST]] = {}
-    c, e = cx.predicate(agm)
+    if cx.R["_are_grid_meters"] is not None:
+        agm = cons.methods[cx.R["_are_grid_meters"]]
+        c, e = cx.predicate(agm)
+    else:
+        # the test was inlined into `generate`: it is the predicate, over the grid successors as `%1`
+        agm = cons.methods["generate"]
+        sel = cx.selection(agm)
+        e = alias(sel[0], [f"self.{cx.R['_get_grid_component_successors']}()"], "%1") if sel is not None else ast.Constant(None)
+        c = bcanon(e)
     forms["_are_grid_meters"] = (agm, agm.node, c, e)
     for holder, role in (("_gen_with_grid_meter", "non_consumer_component"), ("_gen_without_grid_meter", "consumer_component")):
-        h = cx.prep(cons.methods[holder])
+        h = cx.prep(cons.methods[cx.R[holder]])
         defs = cx.defs(h)
         calls = cx.graph_dfs_calls(h, defs)
         got_c = cx.dfs_condition(h, defs, calls[0]) if len(calls) == 1 else None
@@ -317,14 +466,14 @@ def check_meter(run: Run, cx: Ctx) -> None:
         run.check(ok, "C12.METER", ch.qual if ch else cg.qual, f"is_{kind}_chain = {leaf} or is_{kind}_meter",
                   f"`is_{kind}_chain` is not `{leaf} or is_{kind}_meter`", node=ch.node if ch else cg.node, file=cg.module.rel)
     fg = prog.cls(f"{GEN}._formula_generator:FormulaGenerator")
-    pf = fg.methods["_is_primary_fallback_pair"]
+    pf = fg.methods[cx.R["_is_primary_fallback_pair"]]
     run.analysed(pf.qual)
     c, _e = cx.predicate(pf)  # %1 = primary candidate, %2 = fallback candidate (by position)
     want_pf = ("or", frozenset(("and", frozenset({("truthy", f"GRAPH.{leaf}(%2)"), ("truthy", f"GRAPH.is_{kind}_meter(%1)")}))
                                for kind, leaf in KINDS.items()))
     run.check(c == want_pf, "C12.METER", pf.qual, "each leaf kind paired with its own meter kind",
               "a device is paired as fallback with a meter of another kind (or a kind is missing)", node=pf.node, file=pf.file)
-    mf = fg.methods["_get_meter_fallback_components"]
+    mf = fg.methods[cx.R["_get_meter_fallback_components"]]
     run.analysed(mf.qual)
     e = cx.norm(cx.folder.ret_expr(mf), pmap(mf))
     want_mf = ("or", frozenset(("all", SUCC, ("truthy", f"GRAPH.{leaf}(?0)")) for leaf in KINDS.values()))
@@ -345,7 +494,7 @@ def check_meter(run: Run, cx: Ctx) -> None:
               "asserts only that its argument is a meter",
               "`_get_meter_fallback_components` asserts something its caller does not guarantee: the fallback "
               "lookup (hence formula generation) fails for every meter", node=mf.node, file=mf.file)
-    mfc = cx.prep(fg.methods["_get_metric_fallback_components"])
+    mfc = cx.prep(fg.methods[cx.R["_get_metric_fallback_components"]])
     run.analysed(mfc.qual)
     run.check(pairing_ok(cx, mfc), "C12.METER", mfc.qual, "meters -> their fallbacks; devices -> their single metering predecessor",
               "primary/fallback selection does not pair a device with its single predecessor meter", node=mfc.node, file=mfc.file)
@@ -383,17 +532,18 @@ def pairing_ok(cx: Ctx, fn: FuncInfo) -> bool:
     def assigns_entry(s: ast.AST, value_ok: Callable[[ast.AST], bool]) -> bool:
         return isinstance(s, ast.Assign) and len(s.targets) == 1 and txt(val(s.targets[0])) == f"{res}[{x}]" and value_ok(val(s.value))
 
-    n_mf = stmts(lambda s: assigns_entry(s, lambda v: txt(v) == f"self._get_meter_fallback_components({x})"))
+    pair_fn, meter_fn = cx.R["_is_primary_fallback_pair"], cx.R["_get_meter_fallback_components"]
+    n_mf = stmts(lambda s: assigns_entry(s, lambda v: txt(v) == f"self.{meter_fn}({x})"))
     n_own = stmts(lambda s: assigns_entry(s, is_empty_set))
     # the key the device is filed under is read *given* what the rules below establish on the way to that
     # statement (single predecessor, primary/fallback pair): an optional "primary or None" value resolves
-    given = {("==", frozenset({"1", f"len({pred})"}))} | {("truthy", f"self._is_primary_fallback_pair({q}, {x})") for q in pops}
+    given = {("==", frozenset({"1", f"len({pred})"}))} | {("truthy", f"self.{pair_fn}({q}, {x})") for q in pops}
     n_add = stmts(lambda s: isinstance(s, ast.Expr) and txt(simplify_under(val(s.value), given))
                   in {f"{res}.setdefault({q}, set()).add({x})" for q in pops})
     meter = ("==", frozenset({f"{x}.category", METER}))
     e_m = edges_establishing(cfg, lambda a: a == meter, val, within=body)
     e_nm = edges_establishing(cfg, lambda a: a == ("!=", meter[1]), val, within=body)
-    e_pair = edges_establishing(cfg, lambda a: a in {("truthy", f"self._is_primary_fallback_pair({q}, {x})") for q in pops}, val, within=body)
+    e_pair = edges_establishing(cfg, lambda a: a in {("truthy", f"self.{pair_fn}({q}, {x})") for q in pops}, val, within=body)
     e_len = edges_establishing(cfg, lambda a: a == ("==", frozenset({"1", f"len({pred})"})), val, within=body)
     t_pair = {e[0] for e in e_pair}
     if not (n_mf and n_own and n_add and e_m and e_nm and e_pair and e_len):
@@ -595,17 +745,19 @@ def loop_source(cx: Ctx, fn: FuncInfo, defs: dict[str, ast.AST], it: ast.AST) ->
         enumerated, e = True, e.args[0]
     if isinstance(e, ast.Call) and isinstance(e.func, ast.Attribute) and e.func.attr in ("items", "keys") and not e.args and not e.keywords:
         e = e.func.value
-    if isinstance(e, ast.Call) and method_call(e, "self", "_get_fallback_formulas") and len(e.args) == 1 and not e.keywords:
-        e = e.args[0]
+    if isinstance(e, ast.Call) and isinstance(e.func, ast.Attribute) and txt(e.func.value) == "self" and e.func.attr in cx.feeders \
+            and len(e.args) == 1 and not e.keywords:
+        e = e.args[0]  # the per-component lookup (fallback formulas) keyed by the components passed in
     return unwrap(e), enumerated
 
 
 def check_emit(run: Run, cx: Ctx) -> None:
     prog = cx.prog
+    canonical = {v: k for k, v in cx.R.items() if v}
     targets = [
-        f"{GEN}._grid_power_formula_base:GridPowerFormulaBase._generate",
-        f"{GEN}._consumer_power_formula:ConsumerPowerFormula._gen_with_grid_meter",
-        f"{GEN}._consumer_power_formula:ConsumerPowerFormula._gen_without_grid_meter",
+        f"{GEN}._grid_power_formula_base:GridPowerFormulaBase.{cx.R['_generate']}",
+        f"{GEN}._consumer_power_formula:ConsumerPowerFormula.{cx.R['_gen_with_grid_meter']}",
+        f"{GEN}._consumer_power_formula:ConsumerPowerFormula.{cx.R['_gen_without_grid_meter']}",
         f"{GEN}._producer_power_formula:ProducerPowerFormula.generate",
         f"{GEN}._pv_power_formula:PVPowerFormula.generate",
         f"{GEN}._battery_power_formula:BatteryPowerFormula.generate",
@@ -622,6 +774,8 @@ def check_emit(run: Run, cx: Ctx) -> None:
         fn = cx.prep(prog.func(q))
         run.analysed(fn.qual)
         short = q.split(":")[1]
+        if short.split(".")[1] in canonical:  # tables and instance labels are keyed by the role, not the current name
+            short = short.split(".")[0] + "." + canonical[short.split(".")[1]]
         cfg = CFG(fn.node, fn.file)
         defs = cx.defs(fn)
         parents = parent_map(fn.node)
@@ -735,7 +889,7 @@ def check_emit(run: Run, cx: Ctx) -> None:
     # grid power: every grid successor of the admissible categories
     gp = cx.prep(prog.func(targets[0]))
     defs = cx.defs(gp)
-    srcs = {s for _sign, s in sources.get(targets[0].split(":")[1], [])}
+    srcs = {s for _sign, s in sources.get("GridPowerFormulaBase._generate", [])}
     ok = len(srcs) == 1 and next(iter(srcs)) in defs
     if ok:
         sc = defs[next(iter(srcs))]
@@ -747,41 +901,29 @@ def check_emit(run: Run, cx: Ctx) -> None:
         g = sc.generators[0]  # type: ignore[union-attr]
         v = g.target.id  # type: ignore[union-attr]
         cond = g.ifs[0] if len(g.ifs) == 1 else ast.BoolOp(op=ast.And(), values=list(g.ifs))
-        ok = bool(g.ifs) and txt(cx.value(gp, defs, g.iter)) == "self._get_grid_component_successors()" and txt(sc.elt) == v \
+        ok = bool(g.ifs) and txt(cx.value(gp, defs, g.iter)) == f"self.{cx.R['_get_grid_component_successors']}()" and txt(sc.elt) == v \
             and category_set(bcanon(cx.norm(deref(cond, defs, containers=True))), v) == {"INVERTER", "EV_CHARGER", "METER"}  # type: ignore[union-attr]
     run.check(ok, "C12.EMIT", gp.qual, "grid power = Σ over every grid successor that is a meter / inverter / EV charger",
               "grid power does not range over every measurable grid successor", node=gp.node, file=gp.file)
     # consumer with grid meter: the subtracted set is found from *every* grid meter
     gw = cx.prep(prog.func(targets[1]))
-    run.check(subtracted_set_ok(cx, gw, sources.get(targets[1].split(":")[1], [])), "C12.EMIT", gw.qual,
+    run.check(subtracted_set_ok(cx, gw, sources.get("ConsumerPowerFormula._gen_with_grid_meter", [])), "C12.EMIT", gw.qual,
               "devices to subtract are searched below every grid meter",
               "devices below some grid meter are not subtracted from the consumer power", node=gw.node, file=gw.file)
     cgen = prog.func(f"{GEN}._consumer_power_formula:ConsumerPowerFormula.generate")
     run.analysed(cgen.qual)
-    cx.folder.mark_raise = True
-    try:
-        e = cx.norm(cx.folder.ret_expr(cgen), pmap(cgen))
-    finally:
-        cx.folder.mark_raise = False
-    ok = True
-    gs = "self._get_grid_component_successors()"
-    while ok and isinstance(e, ast.IfExp) and "RAISE" in (txt(e.body), txt(e.orelse)):
-        # a guard that refuses to generate: only for "the grid has no successors" (no valid graph)
-        ok = emptiness(bcanon(e.test, txt(e.orelse) == "RAISE")) == (gs, True)
-        e = e.orelse if txt(e.body) == "RAISE" else e.body
-    if ok and isinstance(e, ast.IfExp):
-        c = bcanon(e.test)
-        a, b = e.body, e.orelse
-        if isinstance(c, tuple) and c[0] == "not":
-            c, a, b = c[1], b, a
-        ok = c == ("truthy", f"self._are_grid_meters({gs})") \
-            and isinstance(a, ast.Call) and method_call(a, "self", "_gen_with_grid_meter") and not a.keywords and len(a.args) == 2 \
-            and isinstance(b, ast.Call) and method_call(b, "self", "_gen_without_grid_meter") and not b.keywords and len(b.args) == 2
+    sel = cx.selection(cgen)
+    gs = f"self.{cx.R['_get_grid_component_successors']}()"
+    ok = sel is not None
+    if sel is not None:
+        test, a, b = sel
+        if cx.R["_are_grid_meters"] is not None:
+            ok = bcanon(test) == ("truthy", f"self.{cx.R['_are_grid_meters']}({gs})")
+        # (an inlined test is judged as the first sibling predicate by C12.PART)
+        ok = ok and isinstance(a, ast.Call) and method_call(a, "self", cx.R["_gen_with_grid_meter"]) and not a.keywords and len(a.args) == 2 \
+            and isinstance(b, ast.Call) and method_call(b, "self", cx.R["_gen_without_grid_meter"]) and not b.keywords and len(b.args) == 2
         if ok:
-            ok = txt(a.args[1]) == gs and txt(b.args[1]) == "self._get_grid_component()" and txt(a.args[0]) == txt(b.args[0]) \
-                and isinstance(a.args[0], ast.Call) and method_call(a.args[0], "self", "_get_builder")
-    else:
-        ok = False
+            ok = txt(a.args[1]) == gs and txt(b.args[1]) == f"self.{cx.R['_get_grid_component']}()" and txt(a.args[0]) == txt(b.args[0])  # type: ignore[union-attr]
     run.check(ok, "C12.EMIT", cgen.qual, "grid meters present -> meters minus devices; else sum of consumers",
               "the consumer formula variant is not selected by `_are_grid_meters`", node=cgen.node, file=cgen.file)
 
